@@ -157,11 +157,14 @@ func verifC05(n Name) (base []byte, parts [][]byte, b2 []byte) {
 // ---------------------------------------------------------------------------
 // Result: configuration index (C02, C01, C05)
 
-//@ pure func cfgUnique(r *Result) bool = forall i int, j int :: 0 <= i < j < len(r.Config) ==> r.Config[i].Key != r.Config[j].Key
-//@ pure func cfgIndexed(r *Result) bool = r.configPos != nil &&
-//@     (forall k string :: has(r.configPos, k) ==> 0 <= r.configPos[k] < len(r.Config) && r.Config[r.configPos[k]].Key == k) &&
-//@     (forall i int :: 0 <= i < len(r.Config) ==> has(r.configPos, r.Config[i].Key) && r.configPos[r.Config[i].Key] == i)
-//@ pure func cfgOK(r *Result) bool = r.configPos == nil ? cfgUnique(r) : cfgIndexed(r)
+//@ pure func cfgUniqueV(a Result) bool = forall i int, j int :: 0 <= i < j < len(a.Config) ==> a.Config[i].Key != a.Config[j].Key
+//@ pure func cfgIndexedV(a Result) bool = a.configPos != nil &&
+//@     (forall k string :: has(a.configPos, k) ==> 0 <= a.configPos[k] < len(a.Config) && a.Config[a.configPos[k]].Key == k) &&
+//@     (forall i int :: 0 <= i < len(a.Config) ==> has(a.configPos, a.Config[i].Key) && a.configPos[a.Config[i].Key] == i)
+//@ pure func cfgOKV(a Result) bool = a.configPos == nil ? cfgUniqueV(a) : cfgIndexedV(a)
+//@ pure func cfgUnique(r *Result) bool = cfgUniqueV(deref(r))
+//@ pure func cfgIndexed(r *Result) bool = cfgIndexedV(deref(r))
+//@ pure func cfgOK(r *Result) bool = cfgOKV(deref(r))
 //@ pure func sameButIndex(a Result, b Result) bool = a.Config === b.Config && a.Name === b.Name && a.Iters == b.Iters &&
 //@     a.Values === b.Values && a.fileName == b.fileName && a.line == b.line
 
@@ -183,7 +186,9 @@ func verifC05(n Name) (base []byte, parts [][]byte, b2 []byte) {
 //@     invariant forall i int :: 0 <= i < idx() ==> has(r.configPos, r.Config[i].Key) && r.configPos[r.Config[i].Key] == i
 //@     decreases len(r.Config) - idx()
 
-//@ pure func cfgHasKey(r *Result, key string) bool = exists i int :: 0 <= i < len(r.Config) && r.Config[i].Key == key
+//@ pure func posStable(a Result, b Result) bool = (b.configPos != nil ==> a.configPos == b.configPos)
+//@ pure func cfgHasKeyV(a Result, key string) bool = exists i int :: 0 <= i < len(a.Config) && a.Config[i].Key == key
+//@ pure func cfgHasKey(r *Result, key string) bool = cfgHasKeyV(deref(r), key)
 //@ pure func sameScalars(a Result, b Result) bool = a.Name === b.Name && a.Iters == b.Iters &&
 //@     a.Values === b.Values && a.fileName == b.fileName && a.line == b.line
 
@@ -192,6 +197,7 @@ func verifC05(n Name) (base []byte, parts [][]byte, b2 []byte) {
 //@   requires r != nil && cfgOK(r)
 //@   modifies r, r.Config, r.configPos
 //@   ensures cfgIndexed(r) && sameScalars(deref(r), old(deref(r)))
+//@   ensures posStable(deref(r), old(deref(r))) && (old(r.configPos) == nil ==> fresh(r.configPos))
 //@   ensures old(cfgSep(r)) ==> cfgSep(r)
 //@   ensures ref(r.Config) == old(ref(r.Config)) && off(r.Config) == old(off(r.Config)) && cap(r.Config) == old(cap(r.Config))
 //@   ensures !old(cfgHasKey(r, key)) ==> len(r.Config) == old(len(r.Config))
@@ -206,6 +212,7 @@ func verifC05(n Name) (base []byte, parts [][]byte, b2 []byte) {
 //@   requires r != nil && cfgOK(r)
 //@   modifies r, r.Config, r.configPos
 //@   ensures cfgIndexed(r) && sameScalars(deref(r), old(deref(r)))
+//@   ensures posStable(deref(r), old(deref(r))) && (old(r.configPos) == nil ==> fresh(r.configPos))
 //@   ensures old(cfgSep(r)) ==> cfgSep(r)
 //@   ensures cfg != nil && ref(cfg) == ref(r.Config) && off(r.Config) <= pidx(cfg) < off(r.Config)+len(r.Config)
 //@   ensures deref(cfg).Key == key && deref(cfg).File == file
@@ -252,8 +259,9 @@ func verifC05(n Name) (base []byte, parts [][]byte, b2 []byte) {
 //@     invariant forall i int :: 0 <= i < idx() ==> (len(r2.Config[i].Value) == 0 || fresh(r2.Config[i].Value))
 //@     decreases len(r.Config) - idx()
 
-//@ pure func cfgSep(r *Result) bool = forall i int, j int :: 0 <= i < j < cap(r.Config) ==>
-//@     ref(r.Config[i].Value) == 0 || ref(r.Config[i].Value) != ref(r.Config[j].Value)
+//@ pure func cfgSepV(a Result) bool = forall i int, j int :: 0 <= i < j < cap(a.Config) ==>
+//@     ref(a.Config[i].Value) == 0 || ref(a.Config[i].Value) != ref(a.Config[j].Value)
+//@ pure func cfgSep(r *Result) bool = cfgSepV(deref(r))
 //@ pure func bytesAre(b []byte, s string) bool = len(b) == len(s) && forall j int :: 0 <= j < len(b) ==> b[j] == s[j]
 
 //@ func (r *Result) SetConfig(key, value string)
@@ -261,9 +269,52 @@ func verifC05(n Name) (base []byte, parts [][]byte, b2 []byte) {
 //@   requires r != nil && cfgOK(r) && cfgSep(r)
 //@   modifies r, r.Config, r.configPos, forall i int :: 0 <= i < cap(r.Config) ==> r.Config[i].Value
 //@   ensures cfgIndexed(r) && cfgSep(r) && sameScalars(deref(r), old(deref(r)))
+//@   ensures posStable(deref(r), old(deref(r))) && (old(r.configPos) == nil ==> fresh(r.configPos))
+//@   ensures value != "" ==> len(r.Config) <= old(len(r.Config)) + 1 && (len(r.Config) == old(len(r.Config)) + 1 ==> r.Config[len(r.Config)-1].Key == key)
 //@   ensures value == "" ==> !cfgHasKey(r, key)
+//@   ensures value == "" ==> len(r.Config) <= old(len(r.Config)) && forall i int :: 0 <= i < len(r.Config) ==>
+//@             (old(r.Config[i].Key) != key ==> r.Config[i] == old(r.Config[i])) &&
+//@             (old(r.Config[i].Key) == key ==> r.Config[i] == old(r.Config[len(r.Config)-1]))
 //@   ensures value != "" ==> cfgHasKey(r, key)
 //@   ensures value != "" ==> forall i int :: 0 <= i < len(r.Config) && r.Config[i].Key == key ==> bytesAre(r.Config[i].Value, value) && !r.Config[i].File
 //@   ensures value != "" ==> len(r.Config) >= old(len(r.Config)) && (forall i int :: 0 <= i < old(len(r.Config)) ==> r.Config[i].Key == old(r.Config[i].Key))
 //@   ensures value != "" ==> forall i int :: 0 <= i < old(len(r.Config)) && old(r.Config[i].Key) != key ==>
 //@             r.Config[i].File == old(r.Config[i].File) && r.Config[i].Value == old(r.Config[i].Value)
+
+// ---------------------------------------------------------------------------
+// Reader (C02)
+
+//@ pure func internsOK(r *Reader) bool = r.interns != nil && forall k string :: has(r.interns, k) ==> r.interns[k] == k
+
+//@ func (r *Reader) intern(x []byte) (s string)
+//@   props C02
+//@   requires r != nil && internsOK(r)
+//@   modifies r.interns
+//@   ensures s == string(x) && internsOK(r)
+
+
+//@ func (r *Reader) Reset(ior io.Reader, fileName string, initConfig []string)
+//@   props C02
+//@   requires r != nil && cfgOKV(r.result) && cfgSepV(r.result) && len(initConfig) % 2 == 0
+//@   modifies r, r.result.configPos, heap(Config), heap(byte)
+//@   ensures r.err == nil && r.qPos == 0 && len(r.q) == 0 && r.interns != nil && r.units != nil
+//@   ensures r.result.line == 0 && r.result.fileName == (fileName == "" ? "<unknown>" : fileName)
+//@   ensures len(r.result.Name) == 0 && len(r.result.Values) == 0 && r.result.Iters == 0
+//@   ensures cfgOKV(r.result) && cfgSepV(r.result)
+//@   ensures forall i int :: 0 <= i < len(r.result.Config) ==> !r.result.Config[i].File
+//@   ensures old(r.units) != nil ==> r.units == old(r.units)
+//@   ensures old(r.interns) != nil ==> r.interns == old(r.interns)
+//@   loop 1:
+//@     invariant forall k string :: visited(k) ==> !has(r.result.configPos, k)
+//@     invariant unchanged(r, r.result.configPos)
+//@   loop 2:
+//@     invariant 0 <= i <= len(initConfig) && i % 2 == 0
+//@     invariant unchanged(r, r.result.configPos, heap(Config), heap(byte))
+//@     invariant r.err == nil && r.qPos == 0 && len(r.q) == 0 && r.interns != nil && r.units != nil
+//@     invariant r.result.line == 0 && r.result.fileName == (fileName == "" ? "<unknown>" : fileName)
+//@     invariant len(r.result.Name) == 0 && len(r.result.Values) == 0 && r.result.Iters == 0
+//@     invariant cfgOKV(r.result) && cfgSepV(r.result)
+//@     invariant forall j int :: 0 <= j < len(r.result.Config) ==> !r.result.Config[j].File
+//@     invariant old(r.units) != nil ==> r.units == old(r.units)
+//@     invariant old(r.interns) != nil ==> r.interns == old(r.interns)
+//@     decreases len(initConfig) - i
